@@ -16,6 +16,7 @@ func (p *Program) heapFieldName(t types.Type, fi int) string {
 	name := "Hf." + si.name + "." + fname
 	if _, ok := p.heapSorts[name]; !ok {
 		p.heapSorts[name] = "(Array Int " + si.fields[fi].sort + ")"
+		p.heapElemType[name] = si.fields[fi].typ
 	}
 	return name
 }
@@ -24,6 +25,7 @@ func (p *Program) heapElemName(elem types.Type) string {
 	name := "HA." + elemKey(p.ss, elem)
 	if _, ok := p.heapSorts[name]; !ok {
 		p.heapSorts[name] = "(Array Int (Array Int " + p.ss.sortOf(elem) + "))"
+		p.heapElemType[name] = elem
 	}
 	return name
 }
@@ -32,6 +34,7 @@ func (p *Program) heapPtrName(t types.Type) string {
 	name := "Hp." + elemKey(p.ss, t)
 	if _, ok := p.heapSorts[name]; !ok {
 		p.heapSorts[name] = "(Array Int " + p.ss.sortOf(t) + ")"
+		p.heapElemType[name] = t
 	}
 	return name
 }
